@@ -191,6 +191,7 @@ fn case_direct(t: &mut Tape, ctx: &CaseCtx) -> CaseResult {
     let mixed = !events_only && t.chance(1, 4);
     let reconf_style: Vec<usize> = (0..4).map(|_| t.choose(6)).collect();
     let frames = if t.chance(1, 3) { 2 + t.choose(3) } else { 1 };
+    let cohort_moves_on = reconfigure && t.flag();
     if t.chance(1, 6) {
         // a forced ETag: any visible-ASCII text
         const TOK: [&str; 8] = ["00", ":", "\"", "W/", "ab", "3045", " ", "~"];
@@ -272,6 +273,13 @@ fn case_direct(t: &mut Tape, ctx: &CaseCtx) -> CaseResult {
                 })
                 .collect::<serde_json::Map<_, _>>()
                 .into();
+            // the new configuration carries no cohort assertion: a client that has meanwhile adopted the cohort the
+            // server assigned ("1:1:"), or lost its cohort, must be served like any other
+            if cohort_moves_on {
+                for a in apps.iter_mut() {
+                    a.cohort.id = if a.cohort.id.as_deref() == Some("1:1:") { None } else { Some("1:1:".to_string()) };
+                }
+            }
             let req = http::Request::post("/set_responses_by_appid").body(hyper::Body::from(body.to_string())).unwrap();
             match call_server(&server, req, frames) {
                 Ok((200, _, _)) => {}
